@@ -5,6 +5,8 @@ CONSTANTS Chans = {0, 1, 2}
  OffResetsPause = TRUE
  CountEntries = FALSE
  MaxRemovals = 1
+ Paths = {"A", "B"}
+ RejectedSetsBase = FALSE
  SimDepth = 14
 INVARIANTS Emit
 CHECK_DEADLOCK FALSE
